@@ -431,14 +431,21 @@ struct StringStream {
         constexpr SizeT size = sizeof(Char_T);
         Char_T         *str  = Storage();
 
+#ifdef QENTEM_VERIF
+        // Verification hook: exact-fit growth, so a sanitizer redzone borders the requested capacity.
+        allocate(new_capacity);
+#else
         allocate(new_capacity * SizeT{4});
+#endif
 
         Memory::Copy(Storage(), str, (Length() * size));
         Memory::Deallocate(str);
     }
 
     void allocate(SizeT size) {
+#ifndef QENTEM_VERIF
         size = Memory::AlignSize(size);
+#endif
 
         setStorage(Memory::Allocate<Char_T>(size));
 
